@@ -352,4 +352,205 @@ pub mod sched {
             st.1.retain(|s| s.token != token);
         }
     }
+
+    /// A pool with a fixed number of worker threads and one shared queue, like rayon: a task that
+    /// blocks (on a frame handle's condvar, say) keeps its worker; a worker waiting for its own
+    /// fork-join tasks runs other queued tasks meanwhile (work stealing), a caller from outside the
+    /// pool just waits. Which queued task a free worker takes is the scheduler's choice
+    /// (`shuttle::rand`), so worker-exhaustion deadlocks are found and replayed deterministically.
+    pub struct BoundedPool {
+        inner: shuttle::sync::Mutex<BInner>,
+        cv: shuttle::sync::Condvar,
+        n: usize,
+        me: std::sync::Weak<BoundedPool>,
+    }
+
+    struct BInner {
+        queue: Vec<(u64, Task)>,
+        pending: std::collections::HashMap<u64, usize>,
+        next_group: u64,
+        shutdown: bool,
+        started: bool,
+        workers: Vec<thread::ThreadId>,
+        handles: Vec<thread::JoinHandle<()>>,
+        tasks: u64,
+    }
+
+    impl std::fmt::Debug for BoundedPool {
+        fn fmt(&self, f: &mut std::fmt::Formatter<'_>) -> std::fmt::Result {
+            write!(f, "BoundedPool({})", self.n)
+        }
+    }
+
+    /// Shuts the pool down when the scenario leaves scope (every path, including unwinding).
+    pub struct BoundedGuard(pub std::sync::Arc<BoundedPool>);
+    impl Drop for BoundedGuard {
+        fn drop(&mut self) {
+            self.0.shutdown();
+        }
+    }
+
+    impl BoundedPool {
+        pub fn new(n: usize) -> std::sync::Arc<Self> {
+            std::sync::Arc::new_cyclic(|me| Self {
+                inner: shuttle::sync::Mutex::new(BInner { queue: Vec::new(), pending: Default::default(), next_group: 1, shutdown: false, started: false, workers: Vec::new(), handles: Vec::new(), tasks: 0 }),
+                cv: shuttle::sync::Condvar::new(),
+                n: n.max(1),
+                me: me.clone(),
+            })
+        }
+
+        pub fn tasks(&self) -> u64 {
+            self.inner.lock().unwrap().tasks
+        }
+
+        fn ensure_started(&self) {
+            let mut g = self.inner.lock().unwrap();
+            if g.started || g.shutdown {
+                return;
+            }
+            g.started = true;
+            drop(g);
+            let mut hs = Vec::new();
+            for _ in 0..self.n {
+                let me = self.me.upgrade().expect("pool alive");
+                hs.push(thread::Builder::new().stack_size(4 << 20).spawn(move || me.worker_loop()).expect("shuttle spawn"));
+            }
+            self.inner.lock().unwrap().handles.extend(hs);
+        }
+
+        fn pop_any(g: &mut BInner) -> Option<(u64, Task)> {
+            if g.queue.is_empty() {
+                return None;
+            }
+            use shuttle::rand::Rng;
+            let i = shuttle::rand::thread_rng().gen_range(0..g.queue.len());
+            Some(g.queue.remove(i))
+        }
+
+        fn complete(&self, group: u64) {
+            let mut g = self.inner.lock().unwrap();
+            if let Some(p) = g.pending.get_mut(&group) {
+                *p -= 1;
+            }
+            drop(g);
+            self.cv.notify_all();
+        }
+
+        fn worker_loop(&self) {
+            let id = thread::current().id();
+            self.inner.lock().unwrap().workers.push(id);
+            loop {
+                let mut g = self.inner.lock().unwrap();
+                let job = loop {
+                    if let Some(j) = Self::pop_any(&mut g) {
+                        break Some(j);
+                    }
+                    if g.shutdown {
+                        break None;
+                    }
+                    g = self.cv.wait(g).unwrap();
+                };
+                drop(g);
+                match job {
+                    Some((group, task)) => {
+                        task();
+                        self.complete(group);
+                    }
+                    None => return,
+                }
+            }
+        }
+
+        fn submit(&self, group: u64, tasks: Vec<Task>) {
+            self.ensure_started();
+            let mut g = self.inner.lock().unwrap();
+            *g.pending.entry(group).or_insert(0) += tasks.len();
+            g.tasks += tasks.len() as u64;
+            for t in tasks {
+                g.queue.push((group, t));
+            }
+            drop(g);
+            self.cv.notify_all();
+        }
+
+        fn wait_group(&self, group: u64) {
+            let id = thread::current().id();
+            loop {
+                let mut g = self.inner.lock().unwrap();
+                if g.pending.get(&group).copied().unwrap_or(0) == 0 {
+                    return;
+                }
+                if g.workers.contains(&id) {
+                    if let Some((jg, task)) = Self::pop_any(&mut g) {
+                        drop(g);
+                        task();
+                        self.complete(jg);
+                        continue;
+                    }
+                }
+                let _g = self.cv.wait(g).unwrap();
+            }
+        }
+
+        fn new_group(&self) -> u64 {
+            let mut g = self.inner.lock().unwrap();
+            let id = g.next_group;
+            g.next_group += 1;
+            g.pending.insert(id, 0);
+            id
+        }
+
+        /// Waits for the detached tasks (group 0).
+        pub fn join_detached(&self) {
+            self.wait_group(0);
+        }
+
+        pub fn shutdown(&self) {
+            self.wait_group(0);
+            let hs = {
+                let mut g = self.inner.lock().unwrap();
+                g.shutdown = true;
+                std::mem::take(&mut g.handles)
+            };
+            self.cv.notify_all();
+            for h in hs {
+                let _ = h.join();
+            }
+        }
+    }
+
+    unsafe impl VerifPool for BoundedPool {
+        fn is_multithreaded(&self) -> bool {
+            true
+        }
+
+        fn spawn(&self, task: Task) {
+            self.submit(0, vec![task]);
+        }
+
+        fn plan(&self, n: usize) -> Plan {
+            let workers = self.n.min(n).max(1);
+            let steps = (0..n).map(|i| (i * workers / n, i)).collect();
+            Plan { workers, steps, concurrent: workers > 1 }
+        }
+
+        fn run_batch(&self, tasks: Vec<Task>) {
+            let g = self.new_group();
+            self.submit(g, tasks);
+            self.wait_group(g);
+        }
+
+        fn scope_enter(&self) -> usize {
+            self.new_group() as usize
+        }
+
+        fn scope_spawn(&self, token: usize, task: Task) {
+            self.submit(token as u64, vec![task]);
+        }
+
+        fn scope_exit(&self, token: usize) {
+            self.wait_group(token as u64);
+        }
+    }
 }
